@@ -546,7 +546,88 @@ def r30_conv_geometry(facts):
             tree = _canon(t, e, atoms)
             if tree is not None:
                 counts.append((fn, b, e, tree, len(atoms)))
+        # any other named quantity computed by dividing by a component of a (rows, cols) pair is a window count written differently:
+        # compared with (extent - filter extent) / stride + 1 under every assignment of its three inputs
+        known = {id(e) for e, _ in t.counts}
+        stride_vars = set()
+        for e, _ in t.counts:
+            for x in walk(e):
+                if x.get("k") == "Binary" and x.get("op") == "Div" and F.var_of(x["r"]):
+                    stride_vars.add(F.var_of(x["r"]))
+        if not stride_vars:
+            # no count in the usual form here: the stride is the first (rows, cols) pair among the parameters, as in the sibling routines
+            pair_params = [p_["pat"].get("v") for p_ in facts.params(fn) if p_.get("pat") and p_.get("ty") == PAIR and p_["pat"].get("k") == "Binding"]
+            if pair_params:
+                for n0 in walk(facts.root(fn)):
+                    if n0.get("k") == "Block":
+                        for st0 in n0["stmts"]:
+                            if st0["s"] == "let" and st0["pat"].get("k") == "Leaf" and st0.get("init") is not None and F.var_of(F.peel(st0["init"])) == pair_params[0]:
+                                for v0, _, _, _ in F.pat_bindings(st0["pat"]):
+                                    stride_vars.add(v0)
+        for nb in t.bodies:
+            for n in walk(facts.root(nb)):
+                if n.get("k") != "Block":
+                    continue
+                for st in n["stmts"]:
+                    if st["s"] != "let" or st["pat"].get("k") != "Binding" or st["pat"].get("ty") != "usize" or st.get("init") is None:
+                        continue
+                    init = strip(st["init"])
+                    if id(init) in known or any(id(x) in known for x in walk(init)):
+                        continue
+                    divs = [x for x in walk(init) if x.get("k") == "Binary" and x.get("op") == "Div"]
+                    if not divs:
+                        continue
+
+                    def pair_component(v):
+                        o = t.origin.get(v)
+                        return bool(o and o[0] == "tuple" and o[1] == PAIR)
+                    if not any(F.var_of(d["r"]) in stride_vars for d in divs):
+                        continue
+                    atoms = {}
+                    tree = _canon(t, init, atoms)
+                    if tree is None or len(atoms) != 3:
+                        continue
+                    spec3 = ("Add", ("Div", ("Sub", ("atom", 0), ("atom", 1)), ("atom", 2)), ("lit", 1))
+                    agree = False
+                    witness = None
+                    for perm in itertools.permutations(range(3)):
+                        bad_pt = None
+                        for vals in itertools.product(range(1, 8), repeat=3):
+                            E, Fv, S = vals
+                            if Fv > E:
+                                continue
+                            got = _eval(tree, tuple(vals[perm[i]] for i in range(3)))
+                            want = (E - Fv) // S + 1
+                            if got is None or got != want:
+                                bad_pt = (vals, "a panic (underflow / division by zero)" if got is None else got, want)
+                                break
+                        if bad_pt is None:
+                            agree = True
+                            break
+                        witness = witness or bad_pt
+                    inst = "count-form:%s#%s" % (fn.get("name"), st["pat"].get("name", "?"))
+                    if agree:
+                        c.ok(inst, F.loc(nb, init), "`%s` equals (extent - filter extent) / stride + 1 on the grid 1..7" % show(init)[:60])
+                    elif witness:
+                        c.bad(inst, F.loc(nb, init), "`%s` divides by a stride but is not the window count (extent - filter extent) / stride + 1 under any reading of its three inputs "
+                              "(e.g. inputs %s give %s where the count is %s)" % (show(init)[:70], list(witness[0]), witness[1], witness[2]))
     _stride_as_given(facts, c)
+    # a (rows, cols) pair re-assembled from the components of another pair keeps their order
+    for b in facts.bodies:
+        root = facts.root(b)
+        if root is None:
+            continue
+        for n in walk(root):
+            if n.get("k") == "Tuple" and n.get("ty") == PAIR and len(n["fields"]) == 2:
+                prj = []
+                for f_ in n["fields"]:
+                    f0 = strip(f_)
+                    if isinstance(f0, dict) and f0.get("k") == "Field" and f0.get("idx") is not None and (strip(f0["e"]).get("ty") or "").lstrip("&") == PAIR:
+                        prj.append((show(strip(f0["e"]))[:60], f0["idx"]))
+                    else:
+                        prj.append(None)
+                if None not in prj and prj[0][0] == prj[1][0] and (prj[0][1], prj[1][1]) == (1, 0):
+                    c.bad("pair-order:%s" % b["def"], F.loc(b, n), "the pair `%s` is re-assembled with its components swapped (`.1`, `.0`): rows and columns change places" % prj[0][0])
     c.count("usize operations typed", total_typed)
     c.count("axis checks performed", total_checks)
     c.count("index decodings typed", total_dec)
